@@ -197,7 +197,7 @@ def output_diffs(ctx: Ctx, hist: dict) -> bool:
         d = B.diff_outputs(B.canon_output(st["warm"]), B.canon_output(st["cold"]))
         if d:
             found = True
-            replay = {"config": cfg, "step": k, "diff": d,
+            replay = {"config": cfg, "step": k, "diff": d, "targets": hist.get("targets"),
                       "history": [{"edits": s["edits"], "files": {p: f["text"] for p, f in s["files"].items()},
                                    "mtimes": {p: f["mtime"] for p, f in s["files"].items()}} for s in hist["steps"][:k + 1]]}
             if B.only_once_note_diff(d):
@@ -377,8 +377,9 @@ def replay(ctx: Ctx, path: str) -> int:
             open(fp, "w").write(text)
             mt = st.get("mtimes", {}).get(p, 1_700_000_000 + 2 * k)
             os.utime(fp, (mt, mt))
-        warm = B.run_mypy(root, os.path.join(base, "cache"), args, scratch=base)
-        cold = B.run_mypy(root, os.path.join(base, f"cold{k}"), args, scratch=base)
+        tg = [t for t in (det.get("targets") or []) if os.path.exists(os.path.join(root, t))] or None
+        warm = B.run_mypy(root, os.path.join(base, "cache"), args, targets=tg, scratch=base)
+        cold = B.run_mypy(root, os.path.join(base, f"cold{k}"), args, targets=tg, scratch=base)
         d = B.diff_outputs(B.canon_output(warm), B.canon_output(cold))
         print(f"step {k}: warm status {warm['status']} cold status {cold['status']} diff {d}")
     return 0
